@@ -9,7 +9,7 @@ import sx
 from checks import docs, loadlib, loadcheck
 
 PROP = 'C03'
-TARGETS = ['theories/Proofs/TokenizerProofs.v', 'theories/Proofs/LayoutProofs.v', 'theories/Proofs/EscapeProofs.v', 'theories/Run/RunLoad.v']
+TARGETS = ['theories/Proofs/TokenizerProofs.v', 'theories/Proofs/LayoutProofs.v', 'theories/Proofs/EscapeProofs.v', 'theories/Proofs/TerminationProofs.v', 'theories/Run/RunLoad.v']
 RULE = ('every prefix of small generated documents, single-chunk deletion / duplication / swap / replacement, token soups over '
         '{/begin,/end,/include,A2ML,IF_DATA,quote,/*,//,numbers,identifiers}, A2ML blocks with lone quotes / unclosed comments, nesting '
         'ladders of depth 10..200000, random bytes; x strict in {0,1} x a2ml_spec in {None, valid, invalid} x entry in '
@@ -107,11 +107,15 @@ def check(tier, seed):
     for t in texts:
         tuples.append((t, rng.random() < 0.5, None, 0))
     t1 = time.time()
-    res, lines = loadlib.run_impl(tuples, impl)
-    # re-run died shards case by case
+    res, lines = loadlib.run_impl(tuples, impl, timeout=240 if tier == 'quick' else 1800)
+    # re-run died shards case by case (a load that does not end within the limit counts as died: "never hangs")
     died = [i for i, r in enumerate(res) if r.status == 'DIED']
-    for i in died:
-        res[i] = loadlib.Loaded(fw.run_single([impl, 'LOAD'], lines[i], timeout=60))
+    if died:
+        from concurrent.futures import ThreadPoolExecutor
+        with ThreadPoolExecutor(max_workers=fw.NPROC) as ex:
+            redo = list(ex.map(lambda i: fw.run_single([impl, 'LOAD'], lines[i], timeout=30), died))
+        for i, l in zip(died, redo):
+            res[i] = loadlib.Loaded(l)
     mism = []
     if model_exe:
         mout, _ = loadlib.run_model(tuples, res, model_exe)
@@ -130,7 +134,7 @@ def check(tier, seed):
         n = rng.choice([0, 1, 2, 3, 5, 8, 16, 40, 200])
         cfg_cases.append([bytes(rng.randrange(256) for _ in range(n)), rng.randrange(2), [], 2])
     clines = [sx.enc(c) for c in cfg_cases]
-    cout = fw.run_isolating([impl, 'C03'], clines, single_timeout=60)
+    cout = fw.run_isolating([impl, 'C03'], clines, timeout=240 if tier == 'quick' else 1800, single_timeout=30)
     # --- part 3: documents that live in several files (entry point load(file) with /include), whole and with an include
     # file truncated at a random point; comment-heavy layouts at the file boundaries
     from checks import inclib, c16
@@ -144,7 +148,7 @@ def check(tier, seed):
             icases.append(cut)
     icases += boundary_comment_cases()
     ilines = [sx.enc(list(c16.loadinc_line(c))) for c in icases]
-    iout = fw.run_isolating([impl, 'LOADINC'], ilines, single_timeout=60)
+    iout = fw.run_isolating([impl, 'LOADINC'], ilines, timeout=240 if tier == 'quick' else 1800, single_timeout=30)
     inclib.cleanup_tmp()
     t_corr = time.time() - t1
 
